@@ -40,6 +40,8 @@ CHECKS = {
          "TLC model check of Lifecycle.tla + trace validation of read-only call sequences on real values"),
  "C03": ("6", "totality: every decode operator of the specification returns a value or an error for every small input (Total/Terminates invariants of MC_Label, MC_Dhcp4Scan), netboot outcomes are a total function (Netboot.tla, all conversations of 0..4 messages enumerated by TLC and replayed); every recorded run of the real decoding entry points and of every read-only use of the decoded values (reflection, builders, relay helpers, ztp/netboot extractors) on grammar-derived exhaustive, structurally mutated and large inputs must be crash-free and return within a watchdog",
          "TLC totality invariants + TLC-enumerated conversations replayed + trace validation of recorded runs (panic/timeout = no behaviour of the spec)"),
+ "C13": ("6", "Lease.tla: the DISCOVER/OFFER, REQUEST/ACK|NAK (and SOLICIT/ADVERTISE, REQUEST/REPLY, rapid commit) exchanges against an adversarial environment, model-checked for LeaseRule/NakRule/RequestRule/IgnoreRule; every server behaviour with one reply per transmission (exhaustive) and simulated/exhaustive behaviours with two are played by a reactive scripted connection against the real nclient4.Request/Renew/Release and nclient6 Solicit/Request/RapidSolicit in virtual time; TLC compares transmissions and outcome with the expectation and judges every transmitted message with the Dhcp4Build/Dhcp6Build operators",
+         "TLC model check of Lease.tla + TLC-enumerated server behaviours replayed into the real clients + trace validation with builder operators"),
 }
 
 def main():
